@@ -393,7 +393,8 @@ func DHCPPayload(t *rapid.T, w World) []byte {
 			b = append(b, ip[:]...)
 		}
 		if rapid.Bool().Draw(t, "hasCid") {
-			cid := Bytes(t, rapid.IntRange(0, 9).Draw(t, "cidlen"), "cid")
+			// (long identifiers - DUIDs, vendor strings - make the echoing replies and forged DECLINEs outgrow the BOOTP minimum)
+			cid := Bytes(t, rapid.OneOf(rapid.IntRange(0, 9), rapid.IntRange(20, 70)).Draw(t, "cidlen"), "cid")
 			b = append(b, 61, byte(len(cid)))
 			b = append(b, cid...)
 		}
